@@ -1178,7 +1178,7 @@ async fn run_loop(rid: u64, selective: bool, with_actor: bool, refuse_first: boo
         tokio::spawn(GossipManager::start_gossip_loop(config.clone(), g, Vec::new))
     };
     // wait for the sentinel on every live listener
-    let deadline = std::time::Instant::now() + std::time::Duration::from_secs(30);
+    let deadline = std::time::Instant::now() + std::time::Duration::from_secs(90);
     let mut timed_out = false;
     loop {
         let done = (0..2).all(|p| (p == 0 && refuse_first) || sinks[p].lock().iter().any(|m| matches!(m, GossipMessage::Heartbeat { .. })));
@@ -1199,6 +1199,257 @@ async fn run_loop(rid: u64, selective: bool, with_actor: bool, refuse_first: boo
     (TcpResult { got, timed_out }, ids, spec)
 }
 
+/// the REAL receiver (`GossipManager::start_server` → `handle_peer_connection`): frames written by a
+/// raw TCP client; what reaches the delta callback must be exactly `into_deltas()` of every frame
+/// that fits the size limit, in order, until a frame header above the limit closes the connection.
+/// The port is `3001 + replica_id` on 0.0.0.0 (fixed by the code): a high replica id is probed for a
+/// free port first; a run that finds none is counted, not judged.
+async fn server_scenarios(out: &mut Out) {
+    use tokio::io::AsyncWriteExt;
+    use tokio::net::TcpStream;
+    let mut chosen: Option<u64> = None;
+    let base = 20000 + (std::process::id() as u64 * 7919) % 30000;
+    for attempt in 0..12u64 {
+        let rid = base + attempt * 131;
+        if let Ok(l) = TcpListener::bind(format!("0.0.0.0:{}", 3001 + rid)).await {
+            drop(l);
+            chosen = Some(rid);
+            break;
+        }
+    }
+    let Some(rid) = chosen else {
+        out.count("tcp:server:no-free-port(not judged)");
+        return;
+    };
+    let sink: Arc<parking_lot_like::Mutex<Vec<Vec<ReplicationDelta>>>> = Arc::new(parking_lot_like::Mutex::new(Vec::new()));
+    let s2 = sink.clone();
+    let cb: Arc<dyn Fn(Vec<ReplicationDelta>) + Send + Sync> = Arc::new(move |ds: Vec<ReplicationDelta>| s2.lock().push(ds));
+    let config = ReplicationConfig { enabled: true, replica_id: rid, peers: vec![], ..ReplicationConfig::default() };
+    let server = tokio::spawn(GossipManager::start_server(config, cb));
+    let addr = format!("127.0.0.1:{}", 3001 + rid);
+    // connect as soon as the server listens
+    let deadline = std::time::Instant::now() + std::time::Duration::from_secs(90);
+    let mut conn = None;
+    while std::time::Instant::now() < deadline {
+        if let Ok(c) = TcpStream::connect(&addr).await {
+            conn = Some(c);
+            break;
+        }
+        tokio::time::sleep(std::time::Duration::from_millis(2)).await;
+    }
+    let Some(mut c1) = conn else {
+        server.abort();
+        out.count("tcp:server:never-listened(not judged)");
+        return;
+    };
+    let mut shard = ShardReplicaState::new(ReplicaId::new(7), ConsistencyLevel::Eventual);
+    let mut d = |k: &str, v: &str| shard.record_write(k.into(), SDS::from_str(v), None);
+    let (d1, d2, d3, d4, d5, d6, d7) = (d("k", "v1"), d("zz", "v2"), d("k", "v3"), d("h", "v4"), d("k", "v5"), d("k", "v6"), d("k", "v7"));
+    let frame = |body: &[u8]| {
+        let mut f = (body.len() as u32).to_be_bytes().to_vec();
+        f.extend_from_slice(body);
+        f
+    };
+    const LIMIT: usize = 1024 * 1024;
+    let pad_to = |m: &GossipMessage, n: usize| {
+        // JSON tolerates trailing whitespace: the same message in a body of exactly `n` bytes
+        let mut b = m.serialize().unwrap_or_default();
+        while b.len() < n {
+            b.push(b' ');
+        }
+        b
+    };
+    let msgs: Vec<(GossipMessage, Option<usize>)> = vec![
+        (GossipMessage::DeltaBatch { source_replica: ReplicaId::new(7), deltas: vec![d1.clone()], epoch: 1 }, None),
+        // a targeted frame for ANOTHER replica: the receiver does not check the target
+        (GossipMessage::TargetedDelta { source_replica: ReplicaId::new(7), target_replica: ReplicaId::new(rid + 5), deltas: vec![d2.clone()], epoch: 1 }, None),
+        (GossipMessage::SyncResponse { source_replica: ReplicaId::new(7), deltas: vec![d3.clone()] }, None),
+        (GossipMessage::Heartbeat { source_replica: ReplicaId::new(7), epoch: 2 }, None),
+        (GossipMessage::DeltaBatch { source_replica: ReplicaId::new(7), deltas: vec![], epoch: 2 }, None),
+        // exactly AT the size limit: accepted
+        (GossipMessage::DeltaBatch { source_replica: ReplicaId::new(7), deltas: vec![d4.clone()], epoch: 3 }, Some(LIMIT)),
+        (GossipMessage::DeltaBatch { source_replica: ReplicaId::new(7), deltas: vec![d5.clone()], epoch: 4 }, None),
+    ];
+    let mut expected: Vec<String> = Vec::new();
+    let mut wire: Vec<u8> = Vec::new();
+    for (m, pad) in &msgs {
+        let body = match pad {
+            Some(n) => pad_to(m, *n),
+            None => m.serialize().unwrap_or_default(),
+        };
+        wire.extend(frame(&body));
+        if let Some(ds) = m.clone().into_deltas() {
+            expected.push(dids(&ds));
+        }
+        // a frame that does not deserialise is skipped, the connection stays open
+        if matches!(m, GossipMessage::Heartbeat { .. }) {
+            wire.extend(frame(b"{not json"));
+        }
+    }
+    let sent1 = c1.write_all(&wire).await.is_ok();
+    let wait_for = |sink: Arc<parking_lot_like::Mutex<Vec<Vec<ReplicationDelta>>>>, id: String| async move {
+        let deadline = std::time::Instant::now() + std::time::Duration::from_secs(90);
+        while std::time::Instant::now() < deadline {
+            if sink.lock().iter().any(|ds| ds.iter().any(|x| did(x) == id)) {
+                return true;
+            }
+            tokio::time::sleep(std::time::Duration::from_millis(2)).await;
+        }
+        false
+    };
+    let got5 = sent1 && wait_for(sink.clone(), did(&d5)).await;
+    // one byte above the limit: the header alone closes the connection; what follows on it is never read
+    let mut over = ((LIMIT + 1) as u32).to_be_bytes().to_vec();
+    over.extend(frame(&GossipMessage::DeltaBatch { source_replica: ReplicaId::new(7), deltas: vec![d6.clone()], epoch: 5 }.serialize().unwrap_or_default()));
+    let _ = c1.write_all(&over).await;
+    // a fresh connection (the server replaces the handler of this peer address) carries the sentinel
+    let mut got7 = false;
+    if let Ok(mut c2) = TcpStream::connect(&addr).await {
+        let m7 = GossipMessage::DeltaBatch { source_replica: ReplicaId::new(7), deltas: vec![d7.clone()], epoch: 6 };
+        if c2.write_all(&frame(&m7.serialize().unwrap_or_default())).await.is_ok() {
+            got7 = wait_for(sink.clone(), did(&d7)).await;
+        }
+    }
+    server.abort();
+    out.count("tcp:server:scenario");
+    if !got5 || !got7 {
+        out.violation(
+            "C06:msg:harness:server-timeout",
+            "the real gossip server did not hand a sentinel frame to the delta callback within 90 s",
+            json!({"first_connection_sentinel": got5, "second_connection_sentinel": got7}),
+        );
+        return;
+    }
+    expected.push(dids(&[d7.clone()]));
+    let got: Vec<String> = sink.lock().iter().map(|ds| dids(ds)).collect();
+    out.case("tcp server: frames of every kind, AT the size limit, garbage, one byte above the limit, reconnect", true);
+    if got != expected {
+        out.violation(
+            "C06:msg:server:receiver-applies-other-than-payload",
+            "GossipManager::start_server / handle_peer_connection must hand the delta callback exactly into_deltas() of every frame that fits the 1 MiB limit (DeltaBatch, TargetedDelta whatever its target, SyncResponse; a frame of exactly 1 MiB included), in order, skip frames that do not deserialise, and read nothing after a header above the limit",
+            json!({"expected": expected, "got": got}),
+        );
+    }
+}
+
+/// a TCP-level partition that heals: the peer drops the connection after the first frame (and keeps
+/// listening).  The gossip loop's connection pool must notice the broken connection and connect
+/// again: frames queued afterwards arrive on a NEW connection.  Frames written into the dead
+/// connection before the break is noticed are lost silently (the write succeeded): not judged.
+/// Judged: a later frame arrives on a new connection; what arrives is a subsequence of what was
+/// queued, nothing twice.  Event-driven (arrival / the loop having drained its queue), bounded by
+/// the number of frames, not by sleeps.
+async fn reconnect_scenario(out: &mut Out) {
+    let l = TcpListener::bind("127.0.0.1:0").await.expect("bind loopback");
+    let addr = format!("127.0.0.1:{}", l.local_addr().unwrap().port());
+    // (connection index, message) in arrival order
+    let sink: Arc<parking_lot_like::Mutex<Vec<(usize, GossipMessage)>>> = Arc::new(parking_lot_like::Mutex::new(Vec::new()));
+    let s2 = sink.clone();
+    let listener = tokio::spawn(async move {
+        let mut conn = 0usize;
+        loop {
+            let Ok((mut s, _)) = l.accept().await else { return };
+            conn += 1;
+            let me = conn;
+            let sink = s2.clone();
+            tokio::spawn(async move {
+                loop {
+                    let mut len = [0u8; 4];
+                    if s.read_exact(&mut len).await.is_err() {
+                        return;
+                    }
+                    let n = u32::from_be_bytes(len) as usize;
+                    let mut buf = vec![0u8; n];
+                    if s.read_exact(&mut buf).await.is_err() {
+                        return;
+                    }
+                    if let Ok(m) = GossipMessage::deserialize(&buf) {
+                        sink.lock().push((me, m));
+                    }
+                    if me == 1 {
+                        // the partition: drop the first connection after its first frame
+                        return;
+                    }
+                }
+            });
+        }
+    });
+    let config = ReplicationConfig { enabled: true, replica_id: 1, peers: vec![addr], gossip_interval_ms: 5, ..ReplicationConfig::default() };
+    let st = ReplicatedShardedState::new(config.clone());
+    let g = st.get_gossip_state().expect("Locked backend");
+    let loop_task = tokio::spawn(GossipManager::start_gossip_loop(config.clone(), g.clone(), Vec::new));
+    let mut shard = ShardReplicaState::new(ReplicaId::new(1), ConsistencyLevel::Eventual);
+    let mut queued: Vec<String> = Vec::new();
+    let deadline = std::time::Instant::now() + std::time::Duration::from_secs(90);
+    let mut reconnected = false;
+    for j in 0..60u32 {
+        let d = shard.record_write("k".into(), SDS::from_str(&format!("v{}", j)), None);
+        queued.push(did(&d));
+        g.write().queue_deltas(vec![d]);
+        // until the loop has taken it (and, for the first frame, until it arrived: the partition follows)
+        loop {
+            let drained = g.read().outbound_queue.is_empty();
+            let arrived_first = !sink.lock().is_empty();
+            if drained && (j > 0 || arrived_first) {
+                break;
+            }
+            if std::time::Instant::now() > deadline {
+                break;
+            }
+            tokio::time::sleep(std::time::Duration::from_millis(1)).await;
+        }
+        if sink.lock().iter().any(|(c, _)| *c >= 2) {
+            reconnected = true;
+            break;
+        }
+        if std::time::Instant::now() > deadline {
+            break;
+        }
+    }
+    // the last frames may still be on their way: wait for a frame on a new connection (event), bounded
+    while !reconnected && std::time::Instant::now() < deadline {
+        if sink.lock().iter().any(|(c, _)| *c >= 2) {
+            reconnected = true;
+        } else {
+            let d = shard.record_write("k".into(), SDS::from_str("again"), None);
+            queued.push(did(&d));
+            g.write().queue_deltas(vec![d]);
+            tokio::time::sleep(std::time::Duration::from_millis(5)).await;
+        }
+    }
+    loop_task.abort();
+    listener.abort();
+    out.count("tcp:reconnect:scenario");
+    let arrived: Vec<(usize, String)> = sink.lock().iter().map(|(c, m)| (*c, dids(&payload(m)))).collect();
+    out.case("tcp: the peer drops the connection after the first frame, the loop reconnects", true);
+    if !reconnected {
+        out.violation(
+            "C06:msg:tcp:no-reconnect-after-connection-reset",
+            "the peer dropped the gossip connection after the first frame and kept listening: none of the frames queued afterwards arrived on a new connection (the connection pool must drop a broken connection and connect again)",
+            json!({"queued": queued.len(), "arrived": arrived}),
+        );
+        return;
+    }
+    // what arrived: frames that were queued, in queue order, none twice
+    let ids: Vec<String> = arrived.iter().map(|(_, t)| t.trim_start_matches('[').trim_end_matches(']').to_string()).collect();
+    let mut pos = 0usize;
+    let mut ok = true;
+    for id in &ids {
+        match queued[pos..].iter().position(|q| q == id) {
+            Some(p) => pos += p + 1,
+            None => ok = false,
+        }
+    }
+    out.count(&format!("tcp:reconnect:lost-in-the-dead-connection:{}", if queued.len() > ids.len() { "some" } else { "none" }));
+    if !ok {
+        out.violation(
+            "C06:msg:tcp:frames-out-of-order-or-duplicated-after-reconnect",
+            "after the reconnect the listener received a frame twice, out of order, or one that was never queued",
+            json!({"queued": queued, "arrived": arrived}),
+        );
+    }
+}
+
 async fn tcp_scenarios(out: &mut Out, caps: &Caps) -> PeerIdFixed {
     // what does the source say?
     let src = read_src("src/production/gossip_manager.rs").unwrap_or_default();
@@ -1207,7 +1458,7 @@ async fn tcp_scenarios(out: &mut Out, caps: &Caps) -> PeerIdFixed {
     // probe: replica 1 of 3, selective — does the frame for replica 2 (first configured peer) arrive?
     let (probe, _, _) = run_loop(1, true, false, false).await;
     if probe.timed_out {
-        out.violation("C06:msg:harness:gossip-loop-timeout", "the real gossip loop did not deliver the sentinel heartbeat to a loopback listener within 30 s", json!({"scenario": "probe"}));
+        out.violation("C06:msg:harness:gossip-loop-timeout", "the real gossip loop did not deliver the sentinel heartbeat to a loopback listener within 90 s", json!({"scenario": "probe"}));
     }
     let fixed = PeerIdFixed(probe.got[0].iter().any(|m| m.starts_with("T:")));
     out.extra.insert(
@@ -1228,7 +1479,7 @@ async fn tcp_scenarios(out: &mut Out, caps: &Caps) -> PeerIdFixed {
                     let (res, ids, spec) = run_loop(rid, selective, with_actor, refuse).await;
                     out.count("tcp:scenario");
                     if res.timed_out {
-                        out.violation("C06:msg:harness:gossip-loop-timeout", "the real gossip loop did not deliver the sentinel heartbeat to a loopback listener within 30 s", json!({"rid": rid, "selective": selective, "actor": with_actor}));
+                        out.violation("C06:msg:harness:gossip-loop-timeout", "the real gossip loop did not deliver the sentinel heartbeat to a loopback listener within 90 s", json!({"rid": rid, "selective": selective, "actor": with_actor}));
                         continue;
                     }
                     // the model: node index rid-1 of 3; its peers are the other two in id order
@@ -1531,13 +1782,13 @@ pub fn audit() -> serde_json::Value {
     json!([
       {"class": 1, "topic": "entry path / variant never driven",
        "covered": "message level: every GossipMessage variant, every GossipActor mailbox message, every pub fn of GossipState / GossipRouter / GossipManager / ShardReplicaState and the gossip side of ReplicatedShardedState are enumerated from the source the binary was built against and must be accounted for (C06:coverage:message-path-not-driven:*); real start_gossip_loop and start_gossip_loop_with_actor over loopback TCP; ReplicatedShardedState with both gossip backends, enabled on / off; a node's OWN deltas echoed back are really applied (the old harness skipped them to match a model that treated them as no-ops: the code has no origin check); node / actor restart with an empty state; the multi-key front end (MSET / MGET / EXISTS across shards); actor mailbox messages ExecuteReadonly / EvictExpired / DrainPendingDeltas (C08's table); session 4: the simulator cluster simulator/multi_node.rs — SimulatedNode::{execute, drain_deltas, apply_remote_deltas}, MultiNodeSimulation::{new, new_partitioned, with_auto_anti_entropy, execute, gossip_round (send_deltas, deliver_messages), advance_time_ms, partition, heal_partition, run_anti_entropy_sync, run_full_anti_entropy} — step by step against Model/SimCluster.lean (part S, ops S*)",
-       "open": "GossipManager::start_server binds the fixed port 3001 + replica_id on 0.0.0.0 (another run may hold it) — its receive loop has the shape of server_persistent's handle_gossip_connection, transcribed by the model's recv; SyncRequest / SyncResponse are produced by no code; the simulator's operation history / linearizability checker and its other public accessors are C20's (its source scan fails on a new public entry point of MultiNodeSimulation nobody drives)"},
+       "open": "server_persistent's handle_gossip_connection (a binary, same shape as handle_peer_connection, which IS driven since session 4: every frame kind, the size limit at equality, garbage, reconnect); SyncRequest / SyncResponse are produced by no code; the simulator's operation history / linearizability checker and its other public accessors are C20's (its source scan fails on a new public entry point of MultiNodeSimulation nobody drives)"},
       {"class": 2, "topic": "input alphabet",
        "covered": "values: empty, binary (00 ff 0a), short; keys incl. non-ASCII; hash commands with 1..6 fields and repetitions; deltas of both replicated kinds; frames with 0..n deltas (empty collect, bursts of 100+)",
        "open": "keys are Rust Strings (UTF-8 by type); counter / set CRDT kinds are not producible by the replicated actor (C07 covers their merges)"},
       {"class": 3, "topic": "comparison at equality",
        "covered": "stamp ties (equal Lamport time on two fresh nodes), outbound queue exactly AT MAX_OUTBOUND_QUEUE (nothing dropped) and one past it (the oldest dropped), outbox bursts of cap..cap+2, the peer-id arithmetic of the gossip loops for the replica id at every position (1, 2, 3 of 3), epoch saturation at u64::MAX, a ring with replication factor 1..n",
-       "open": "the 1 MiB frame limit of the receiver (msg_len > 1024*1024) is in the model (recv tooLarge) and its loss witness, not crossed on the real receiver (start_server is not driven)"},
+       "open": "the real receiver (start_server → handle_peer_connection) is driven by a raw TCP client: a frame of exactly 1 MiB is accepted, a header one byte above closes the connection; the port 3001 + replica_id on 0.0.0.0 is fixed by the code: a high replica id is probed for a free port, a run that finds none is counted (tcp:server:no-free-port), not judged"},
       {"class": 4, "topic": "configuration",
        "covered": "ReplicationConfig: enabled on / off, replica_id 1..4, consistency_level Eventual / Causal, gossip_interval_ms (5 ms in the TCP scenarios), peers complete / one missing, replication_factor 1..n, partitioned_mode + selective_gossip on / off, virtual_nodes_per_physical 1 / 8 / 150; a router installed at construction, later (set_router), replaced at run time, non-selective",
        "open": ""},
@@ -1545,7 +1796,7 @@ pub fn audit() -> serde_json::Value {
        "covered": "MAX_PENDING_DELTAS and MAX_OUTBOUND_QUEUE are read from the source (and compared with the compiled constant and the model's constants) and crossed by generated cases; the theorems quantify over the capacities; the outbox capacity is also crossed INSIDE the simulator cluster (cap-3 … cap+6 writes on one node between two gossip rounds), max_keys_per_sync 0 / 1 / 2 / 1000 and merkle_tree_depth 0 / 1 / 3 / 8 in the anti-entropy exchanges",
        "open": "NUM_SHARDS = 16 is fixed in the source (C08's node-level model takes it as a parameter)"},
       {"class": 6, "topic": "fault kinds",
-       "covered": "a send that fails (refused connection, real TCP) is not retried; a target without address; a closed actor mailbox (handle fallbacks after Shutdown); frames never handed over / handed over twice / reordered; every loss cause has a Lean witness and a ledger entry compared step by step; in the simulator cluster: packet loss per send (rate 0 / 0.3 / 0.6 / 1, the simulator's own rng draws replayed by a twin rng and handed to the model), a partition at send time, a partition at delivery time (the flight stays queued and blocks the queue behind it), delays 0..14 ms",
+       "covered": "a send that fails (refused connection, real TCP) is not retried; the peer drops the connection after the first frame and keeps listening (a TCP-level partition that heals): the connection pool reconnects and later frames arrive, in order, none twice; a target without address; a closed actor mailbox (handle fallbacks after Shutdown); frames never handed over / handed over twice / reordered; every loss cause has a Lean witness and a ledger entry compared step by step; in the simulator cluster: packet loss per send (rate 0 / 0.3 / 0.6 / 1, the simulator's own rng draws replayed by a twin rng and handed to the model), a partition at send time, a partition at delivery time (the flight stays queued and blocks the queue behind it), delays 0..14 ms",
        "open": "a serialisation failure of a GossipMessage cannot be provoked (serde_json on these types does not fail); partial TCP writes are below the model's send oracle"},
       {"class": 7, "topic": "history shapes",
        "covered": "restart with an empty state + own deltas back + write again (corpus + random, shard level and actor level), write before the own history is back (excluded by cause, counted), write-after-receive, duplicates, bursts between two drains, router / replication-factor change at run time, a writer outside the key's replica set, partial flushes; partition → writes on both sides → heal (with / without automatic anti-entropy) in any order; every delta of a burst lost, then run_full_anti_entropy; an exchange while flights are still queued",
@@ -1560,7 +1811,7 @@ pub fn audit() -> serde_json::Value {
        "covered": "a divergence of a key of ONE kind whose registers re-use a stamp was absorbed by C06:cross-kind-order (compat = none was taken for 'mixed kinds'): now C06:rs-diverge:stamp-reused, a violation unless the history wrote before its own recovery (counted); the front-end findings carry the command in the signature",
        "open": ""},
       {"class": 11, "topic": "harness fragility",
-       "covered": "source files are read from the tree the binary was built against; a failed scan, an implausibly short scan, a loop that does not deliver its sentinel within 30 s, a capacity constant that differs from the model are violations; the peer-id arithmetic is observed on the real loop and cross-checked with the source text",
+       "covered": "source files are read from the tree the binary was built against; a failed scan, an implausibly short scan, a loop that does not deliver its sentinel within 90 s, a capacity constant that differs from the model are violations; the peer-id arithmetic is observed on the real loop and cross-checked with the source text",
        "open": ""}
     ])
 }
@@ -1570,6 +1821,8 @@ pub async fn part_m(out: &mut Out, rng: &mut Rng, n: u64) {
     message_kinds(out);
     state_corners(out);
     let fixed = tcp_scenarios(out, &caps).await;
+    server_scenarios(out).await;
+    reconnect_scenario(out).await;
     outbound_boundary(out, &caps, fixed);
     for _ in 0..n {
         let mut r = rng.fork();
